@@ -37,10 +37,12 @@ def clearAt : RemMode → Node → Node
 
 /-- `RadiDict._try_merge(pnode)` after a child of `pnode` was deleted: a literal, data-less,
 hook-less node (not the root) with exactly one child, that child being a literal one, is replaced
-by the child with the keys joined -/
-def tryMerge (isRoot : Bool) : Node → Node
+by the child with the keys joined.  `noMerge`: the node is the root (`pnode is self.root`) or sits
+in the wildcard slot of its parent (`pnode[KEY] == self.param_token`; the model tells wildcard
+children by their slot, the key test is kept for a literal node whose key is the marker). -/
+def tryMerge (noMerge : Bool) : Node → Node
   | .mk k d p f h lits tok =>
-    if isRoot || d.isSome || h.isSome || k == [Gen.paramToken] then .mk k d p f h lits tok
+    if noMerge || d.isSome || h.isSome || k == [Gen.paramToken] then .mk k d p f h lits tok
     else match lits, tok with
       | [c], none => c.withKey (k ++ c.key)
       | _, _ => .mk k d p f h lits tok
@@ -50,8 +52,8 @@ to be deleted from its parent (`key0_to_del` set) -/
 def finish (n : Node) : Node × Bool := (n, n.isEmpty)
 
 /-- the loop body at a parent whose child was (`del = true`) or was not deleted -/
-def pruneUp (isRoot : Bool) (n : Node) (del : Bool) : Node × Bool :=
-  if del then finish (tryMerge isRoot n) else (n, false)
+def pruneUp (noMerge : Bool) (n : Node) (del : Bool) : Node × Bool :=
+  if del then finish (tryMerge noMerge n) else (n, false)
 
 /-- `MismatchType.PARTIAL` at literal child `k` while `route` is what is left of the pattern:
 only a wildcard removal goes on, and only when `node[KEY].startswith(route_pattern[ptr:])` -/
@@ -62,15 +64,15 @@ mutual
 /-- `RadiDict.remove` below node `n` for the rest of the pattern.  `none`: `_match` reported a
 mismatch (nothing changes); `some (n', del)`: the node after the edit and whether the parent has
 to delete it.  `_match` is called without filters, so filters are not compared. -/
-def remN (isRoot : Bool) (mode : RemMode) : Node → List Sym → Option (Node × Bool)
+def remN (noMerge : Bool) (mode : RemMode) : Node → List Sym → Option (Node × Bool)
   | n, [] => some (finish (clearAt mode n))
   | .mk k d p f h lits tok, .lit c :: r =>
-    (remL mode lits c r).map fun x => pruneUp isRoot (.mk k d p f h x.1 tok) x.2
+    (remL mode lits c r).map fun x => pruneUp noMerge (.mk k d p f h x.1 tok) x.2
   | .mk k d p f h lits tok, .tok _ :: r =>
-    (remT mode tok r).map fun x => pruneUp isRoot (.mk k d p f h lits x.1) x.2
+    (remT mode tok r).map fun x => pruneUp noMerge (.mk k d p f h lits x.1) x.2
 def remT (mode : RemMode) : Option Node → List Sym → Option (Option Node × Bool)
   | none, _ => none
-  | some t, r => (remN false mode t r).map fun x => if x.2 then (none, true) else (some x.1, false)
+  | some t, r => (remN true mode t r).map fun x => if x.2 then (none, true) else (some x.1, false)
 /-- the literal children after the edit and whether one of them was deleted -/
 def remL (mode : RemMode) : List Node → Char → List Sym → Option (List Node × Bool)
   | [], _, _ => none
@@ -274,24 +276,26 @@ def Router.serve (upper : Str → Str) (env : FilterEnv) (R : Router) (verb path
 
 /-! ## 10. edit histories -/
 
-/-- one editing call on a `RadiRouter` (handler / hook identities are part of the op) -/
+/-- one editing call on a `RadiRouter` (handler / hook identities are part of the op).  `reg`:
+the registration calls of `Model/Router.lean` (`add`, `remove_method`).  Every call that parses a
+rule carries the outcome of filter compilation (`cenv`), as on the driver's lines. -/
 inductive EditOp
-  | add (a : AddArgs)
-  | removeRule (rule : Str)
+  | reg (op : Op)
+  | removeRule (cenv : CompileEnv) (rule : Str)
   | removeName (name : Str)
-  | addHook (rule : Str) (hook : Nat) (partialType : Bool)
-  | removeHook (rule : Str)
+  | addHook (cenv : CompileEnv) (rule : Str) (hook : Nat) (partialType : Bool)
+  | removeHook (cenv : CompileEnv) (rule : Str)
 
 /-- the router after the call; the call's own outcome (value or exception) is dropped -/
-def Router.step (upper : Str → Str) (cenv : CompileEnv) (R : Router) : EditOp → Router
-  | .add a => (R.add upper cenv a).1
-  | .removeRule r => (R.removeRule cenv r).1
+def Router.editStep (upper : Str → Str) (R : Router) : EditOp → Router
+  | .reg op => R.step upper op
+  | .removeRule cenv r => (R.removeRule cenv r).1
   | .removeName n => (R.removeName n).1
-  | .addHook r h t => (R.addHook cenv r h t).1
-  | .removeHook r => (R.removeHook cenv r).1
+  | .addHook cenv r h t => (R.addHook cenv r h t).1
+  | .removeHook cenv r => (R.removeHook cenv r).1
 
 /-- the router after a history of editing calls, starting from `RadiRouter()` -/
-def Router.run (upper : Str → Str) (cenv : CompileEnv) (ops : List EditOp) : Router :=
-  ops.foldl (Router.step upper cenv) {}
+def Router.editRun (upper : Str → Str) (ops : List EditOp) : Router :=
+  ops.foldl (Router.editStep upper) {}
 
 end Ombott.Router
